@@ -125,31 +125,37 @@ def run_engine_check(prop, tier, seed, scenarios=None, replay=False):
         log("  clause %s at event %s" % (h["clause"], json.dumps(excerpt(tr, h["i"], 0, 0))))
     # model -> code binding: how many generated behaviours the real engine followed to the end, and whether the
     # stored plan then equals the model's prediction (a mismatch is MODEL-DRIFT: reported, never a verdict)
-    replay = {"generated": 0, "followed": 0, "diverged": 0, "final_equal": 0, "drift": []}
+    mrep = {"generated": 0, "followed": 0, "diverged": 0, "final_equal": 0, "drift": []}
     for s in scenarios:
         if s.get("mode") != "model":
             continue
-        replay["generated"] += 1
+        mrep["generated"] += 1
         tr = traces.get((s["id"], 0, 0))
         if tr is None:
             continue
         if any(e["ev"] == "Diverged" for e in tr):
-            replay["diverged"] += 1
+            mrep["diverged"] += 1
             continue
-        replay["followed"] += 1
+        mrep["followed"] += 1
         wr = [e for e in tr if e["ev"] == "WaitRet"]
         if wr:
             real = {x["obj"]: [x["st"], x["natt"]] for x in wr[-1]["snap"]}
             model = {o: [v["st"], v["natt"]] for o, v in s["model_final"].items()}
             if real == model and wr[-1]["reason"] == s["model_reason"]:
-                replay["final_equal"] += 1
-            elif len(replay["drift"]) < 3:
-                replay["drift"].append({"scenario": s["id"], "diff": {o: [model.get(o), real.get(o)] for o in set(real) | set(model) if real.get(o) != model.get(o)},
+                mrep["final_equal"] += 1
+            elif len(mrep["drift"]) < 3:
+                mrep["drift"].append({"scenario": s["id"], "diff": {o: [model.get(o), real.get(o)] for o in set(real) | set(model) if real.get(o) != model.get(o)},
                                         "reason": [s["model_reason"], wr[-1]["reason"]]})
-    if replay["generated"]:
-        drift = replay["followed"] - replay["final_equal"]
+    if mrep["generated"]:
+        drift = mrep["followed"] - mrep["final_equal"]
         log("[%s] model behaviours replayed: %d generated, %d followed to the end, %d diverged, %d final states equal to the model's%s" % (
-            prop, replay["generated"], replay["followed"], replay["diverged"], replay["final_equal"], (" MODEL-DRIFT in %d" % drift) if drift else ""))
+            prop, mrep["generated"], mrep["followed"], mrep["diverged"], mrep["final_equal"], (" MODEL-DRIFT in %d" % drift) if drift else ""))
+    # code -> model binding: a sample of the recorded live traces must be behaviours of Engine.tla
+    import engine_model
+    conf = engine_model.conformance(traces, 12 if tier == "quick" else 120, seed) if not replay else {"checked": 0, "accepted": 0, "rejected": []}
+    if conf["checked"]:
+        log("[%s] trace conformance to Engine.tla: %d of %d sampled traces accepted%s" % (prop, conf["accepted"], conf["checked"],
+            "" if conf["accepted"] == conf["checked"] else " MODEL-DRIFT: " + json.dumps(conf["rejected"][:1])[:400]))
     # evidence
     tags = collections.Counter(trace_ctx(t)["tag"] for t in traces.values())
     nev = sum(len(t) for t in traces.values())
@@ -172,8 +178,9 @@ def run_engine_check(prop, tier, seed, scenarios=None, replay=False):
         "hung_scenarios": info["hung"], "unreproduced_hangs": unreproduced, "died": [d["scn"] for d in info["died"]],
         "monitor_wall_s": round(mstats["wall"], 2),
         "model": model,
-        "model_behaviours_replayed": replay,
-        "model_conformance": "drift" if replay["followed"] > replay["final_equal"] else "ok",
+        "model_behaviours_replayed": mrep,
+        "trace_conformance_to_model": conf,
+        "model_conformance": "drift" if (mrep["followed"] > mrep["final_equal"] or conf["accepted"] < conf["checked"]) else "ok",
         "exhaustive": False,
     }
     wall = time.time() - t0
